@@ -20,7 +20,10 @@ RULE = ("cases: prepare (image lengths: every small length, all 16-/128-byte bou
         "BaseSyncGateway: present 1-3 nodes, update_fw/make_update, config and block requests in permuted/repeated/"
         "interleaved order, malformed requests). non-trivial = prepare/crc: distinct (length, content) with length>0; "
         "hex2int/int2hex: distinct input (accepted, or rejected by a named error class); ihex: distinct text; "
-        "session: at least one node received its config response and all blocks 0..B-1 and the reassembly check ran")
+        "session: at least one node received its config response and all blocks 0..B-1 and the reassembly check ran; "
+        "republish sessions: image A under (t,v), none/some/all blocks fetched, a DIFFERENT image B under the same (t,v) "
+        "(make_update or .hex file; same and/or other node), new config request + complete download, then a restart + "
+        "second complete download")
 ASSUMPTIONS = [
     "binascii.hexlify/unhexlify, struct '<nH', Python slices and int() behave as modelled in Model/Hex.v, Model/Ota.v "
     "(checked by correspondence only)",
@@ -67,6 +70,7 @@ THEOREMS_DOC = {
     "C09_config_advertises": "a config response advertises the firmware stored under the id the node is scheduled for",
     "C09_serve_blocks": "any sequence of (node, index) block requests by active nodes is answered one by one with header + block",
     "C09_end_to_end": "make_update(img); config request; any history; block request i -> advertised (B, CRC) of prepare(img) and block i of it",
+    "C09_republish_serves_new": "after make_update stored img under (t,v) - whatever image/sessions/history the state held - every later block answer for (t,v), after any further requests, is a block of the NEW prepared image or no answer",
     "C09_make_update_rejects": "non-integer or non-16-bit type/version: make_update changes nothing",
     "C09_invariant": "invariant (firmwares prepared from byte strings with blocks<=65535, ids 16-bit) holds initially, is kept, and implies respond_fw_config cannot raise",
     "C09_ihex_roundtrip": "ihex_load(ihex_encode(img)) = img for every byte string < 4 GiB, record length 1..255, either letter case",
@@ -463,6 +467,124 @@ def gen_session(rng, ctx, big=False):
     return {"kind": "session", "version": version, "nodes": nodes, "ops": ops}
 
 
+def fetch_stream(rng, nd, t, v, nblocks, mode):
+    """Requests of one node: config request, then block requests. mode: none | cfg | partial | complete."""
+    s = []
+    if mode == "none":
+        return s
+    s.append({"op": "cfg", "node": nd, "payload": valid_cfg_payload(rng, *(rng.choice([(t, v), (None, None)])))})
+    if mode == "cfg":
+        return s
+    idx = list(range(nblocks))
+    k = rng.random()
+    if k < 0.3:
+        pass
+    elif k < 0.55:
+        idx.reverse()
+    else:
+        rng.shuffle(idx)
+    if mode == "partial":
+        idx = idx[:rng.randrange(1, max(2, len(idx)))]
+    if rng.random() < 0.5:
+        for _ in range(rng.randrange(1, 5)):
+            idx.insert(rng.randrange(len(idx) + 1), rng.choice(idx))
+    for i in idx:
+        s.append({"op": "blk", "node": nd, "payload": words_hex([t, v, i])})
+    return s
+
+
+def interleave(rng, streams, ops):
+    streams = [s for s in streams if s]
+    while streams:
+        s = rng.choice(streams)
+        for _ in range(min(rng.choice([1, 1, 2, 5, 20]), len(s))):
+            ops.append(s.pop(0))
+        streams = [x for x in streams if x]
+
+
+def different_image(rng, img):
+    """Another image for the same (type, version): rebuilt firmware without a version bump."""
+    k = rng.randrange(7)
+    n = len(img)
+    if k == 0:                                   # one byte changed
+        p = rng.randrange(n)
+        return img[:p] + bytes([img[p] ^ rng.randrange(1, 256)]) + img[p + 1:]
+    if k == 1:                                   # same length, new content
+        out = rand_bytes(rng, n)
+    elif k == 2:                                 # longer, same prefix
+        out = img + rand_bytes(rng, rng.choice([1, 15, 16, 17, 128, 129, rng.randrange(1, 400)]))
+    elif k == 3:                                 # shorter prefix
+        out = img[:rng.randrange(1, n)] if n > 1 else img + b"\x01"
+    elif k == 4:                                 # longer, new content
+        out = rand_bytes(rng, n + rng.randrange(1, 300))
+    elif k == 5:                                 # shorter, new content
+        out = rand_bytes(rng, rng.randrange(1, n + 1))
+    else:                                        # only the last block differs
+        out = img[:-1] + bytes([img[-1] ^ 0x55])
+    if out == img:
+        out = img + b"\x00"
+    return out
+
+
+def gen_session_republish(rng, ctx):
+    """Publish image A as (t, v), let nodes fetch none/some/all of it, publish a DIFFERENT image B under the same
+    (t, v) (make_update or update_fw with a .hex file), new config request, complete download; then a restart."""
+    version = rng.choice(VERSIONS)
+    pool = [1, 2, 3, 7, 42, 100, 253, 254]
+    nodes = rng.sample(pool, rng.choice([1, 2, 2, 3]))
+    t, v = rand_word(rng), rand_word(rng)
+    n = rng.randrange(1, 500) if rng.random() < 0.7 else rng.choice([16, 112, 127, 128, 129, 255, 256, 257, 640, 1024])
+    img = rand_bytes(rng, n)
+    ops = []
+
+    def publish(image, nids):
+        via = rng.choice(["bin", "bin", "file"])
+        targ = rng.choice([t, t, t, str(t), " %d " % t])
+        op = {"op": "update", "nids": nids[0] if len(nids) == 1 and rng.random() < 0.4 else list(nids), "t": targ, "v": v}
+        if image is None:
+            op["img"] = None
+        else:
+            op["img"] = image.hex()
+            op["via"] = via
+            if via == "file":
+                op["reclen"] = rng.choice([16, 32, 255, 7])
+                op["upper"] = rng.random() < 0.7
+        ops.append(op)
+
+    # phase A
+    sa = rng.sample(nodes, rng.randrange(1, len(nodes) + 1))
+    publish(img, sa)
+    pre = rng.choice(["none", "cfg", "partial", "partial", "complete", "complete"])
+    interleave(rng, [fetch_stream(rng, nd, t, v, spec_blocks(len(img)),
+                                  pre if k == 0 else rng.choice(["none", "cfg", "partial", "complete"]))
+                     for k, nd in enumerate(sa)], ops)
+    # phase B: a different image under the same id, to the same node(s) and/or other ones
+    rounds = rng.choice([1, 1, 2])
+    for _ in range(rounds):
+        img = different_image(rng, img)
+        who = rng.random()
+        if who < 0.35:
+            sb = list(sa)
+        elif who < 0.6 and len(nodes) > len(sa):
+            sb = [x for x in nodes if x not in sa]
+        else:
+            sb = rng.sample(nodes, rng.randrange(1, len(nodes) + 1))
+        publish(img, sb)
+        streams = [fetch_stream(rng, nd, t, v, spec_blocks(len(img)), "complete") for nd in sb]
+        for nd in sa:
+            if nd not in sb and rng.random() < 0.5:      # still in its old session: served from the current dict
+                streams.append([{"op": "blk", "node": nd, "payload": words_hex([t, v, rng.randrange(spec_blocks(len(img)))])}
+                                for _ in range(rng.randrange(1, 4))])
+        interleave(rng, streams, ops)
+        sa = sb
+    # phase C: restart of the session and a full second download
+    if rng.random() < 0.7:
+        sc = rng.sample(nodes, rng.randrange(1, len(nodes) + 1))
+        publish(rng.choice([None, None, img]), sc)
+        interleave(rng, [fetch_stream(rng, nd, t, v, spec_blocks(len(img)), "complete") for nd in sc], ops)
+    return {"kind": "session", "version": version, "nodes": nodes, "ops": ops, "republish": True}
+
+
 def corpus():
     """Hand-seeded cases (run first)."""
     cs = []
@@ -501,6 +623,17 @@ def corpus():
         {"op": "cfg", "node": 2, "payload": "ffff0000000000000000"},
         {"op": "cfg", "node": 1, "payload": "ffff0000000000000000"},
     ] + [{"op": "blk", "node": 2, "payload": words_hex([65535, 0, i])} for i in range(16)]})
+    a, b = bytes(range(1, 41)), bytes(range(101, 190))
+    cs.append({"kind": "session", "version": "2.1", "nodes": [1, 2], "republish": True, "ops": [
+        {"op": "update", "nids": [1], "t": 7, "v": 3, "img": a.hex(), "via": "bin"},
+        {"op": "cfg", "node": 1, "payload": "07000300000000000000"},
+        {"op": "blk", "node": 1, "payload": words_hex([7, 3, 0])}, {"op": "blk", "node": 1, "payload": words_hex([7, 3, 2])},
+        {"op": "update", "nids": [1, 2], "t": 7, "v": 3, "img": b.hex(), "via": "file", "reclen": 16, "upper": True},
+        {"op": "cfg", "node": 2, "payload": "07000300000000000000"}, {"op": "cfg", "node": 1, "payload": "07000300000000000000"},
+    ] + [{"op": "blk", "node": nd, "payload": words_hex([7, 3, i])} for i in range(8) for nd in (1, 2)] + [
+        {"op": "update", "nids": 1, "t": 7, "v": 3, "img": None},
+        {"op": "cfg", "node": 1, "payload": "07000300000000000000"},
+    ] + [{"op": "blk", "node": 1, "payload": words_hex([7, 3, i])} for i in reversed(range(8))]})
     return cs
 
 
@@ -522,8 +655,10 @@ def gen_cases(ctx):
                       "data": rng.randbytes(n).hex()})
     for _ in range(ctx.budget(350, 5000)):
         cases.append(gen_ihex(rng, ctx))
-    for _ in range(ctx.budget(150, 2500)):
+    for _ in range(ctx.budget(120, 2200)):
         cases.append(gen_session(rng, ctx))
+    for _ in range(ctx.budget(90, 1200)):
+        cases.append(gen_session_republish(rng, ctx))
     for _ in range(ctx.budget(5, 60)):
         cases.append(gen_session(rng, ctx, big=True))
     return cases
@@ -736,7 +871,7 @@ def req_words(payload, words):
     return le16s(b)
 
 
-def monitor_session(case, obs, res=None):
+def monitor_session(case, obs, stats=None):
     """Independent reading of the property on one session of the real gateway.
     Returns (why or None, complete_reassemblies)."""
     fws = {}        # (t, v) -> image the controller loaded
@@ -745,6 +880,9 @@ def monitor_session(case, obs, res=None):
     advert = {}     # node -> (t, v, B, C) from the config response
     got = {}        # node -> {index: block}
     complete = 0
+    replaced = set()   # ids whose image was replaced by a different one during this session
+    stats = stats if stats is not None else {}
+    stats["after_replace"] = 0
     known = set(case["nodes"])
 
     def finish(nd):
@@ -767,6 +905,8 @@ def monitor_session(case, obs, res=None):
         if crc16_modbus(data) != C:
             return f"node {nd}: advertised CRC {C:#06x} != CRC-16/MODBUS of the served data {crc16_modbus(data):#06x}"
         complete += 1
+        if (t, v) in replaced:
+            stats["after_replace"] += 1
         return None
 
     for op, o in zip(case["ops"], obs):
@@ -783,6 +923,7 @@ def monitor_session(case, obs, res=None):
                 continue
             if op.get("img") is not None:
                 if (t, v) in fws and fws[(t, v)] != bytes.fromhex(op["img"]):
+                    replaced.add((t, v))
                     for nd in list(advert):          # image replaced: running sessions are void
                         if advert[nd][:2] == (t, v):
                             advert.pop(nd)
@@ -990,13 +1131,18 @@ def run(ctx, res):
             mouts[i] = o
     xin, xout = [], []
     sessions_complete = 0
+    after_replace = 0
     stream_ops = 0
     for c, o, mo in zip(cases, obs, mouts):
         res.evaluations += 1
         res.count(dist_key(c, o))
         if c["kind"] == "session":
-            why, comp = monitor_session(c, o)
+            st = {}
+            why, comp = monitor_session(c, o, st)
             sessions_complete += comp
+            after_replace += st["after_replace"]
+            if c.get("republish"):
+                res.count("session:republish")
             stream_ops += len(c["ops"])
             if comp:
                 res.nontriv(core.case_hash(c))
@@ -1027,6 +1173,7 @@ def run(ctx, res):
                 xin.extend(ml)
                 xout.extend(mo)
     res.extra["complete_reassemblies"] = sessions_complete
+    res.extra["complete_reassemblies_after_republish"] = after_replace
     res.extra["stream_ops"] = stream_ops
     picks = {}
     for c, o in zip(cases, obs):
